@@ -13,6 +13,7 @@ pub mod c15diff;
 pub mod c18;
 pub mod c19;
 pub mod sampled;
+pub mod smallscope;
 
 pub fn run(name: &str, a: &Args, acc: &mut Acc) {
     match name {
@@ -24,6 +25,7 @@ pub fn run(name: &str, a: &Args, acc: &mut Acc) {
         "c13" => c13::run(a, acc),
         "c14" => c14::run(a, acc),
         "c15diff" => c15diff::run(a, acc),
+        "smallscope" => smallscope::run(a, acc),
         "c18" => c18::run(a, acc),
         "c19" => c19::run(a, acc),
         "c08" | "c10" | "c17" => sampled::run(name, a, acc),
